@@ -165,8 +165,10 @@ class GroupTime:
     def make(self, v, sh, tag):
         shape = self.shapes[sh]
         n = 1 if shape == () else shape[0]
-        jd1 = np.array([2451544.5 + 10 * v + k for k in range(n)])
-        jd2 = np.array([0.25 + 0.001 * v + 0.01 * k for k in range(n)])
+        # value ids 0 and 1 are 8.64 us apart (1e-10 day in jd2, same jd1): one float Julian date cannot tell them apart,
+        # the two parts can; value id 2 is another day
+        jd1 = np.array([2451544.5 + 10 * (v // 2) + k for k in range(n)])
+        jd2 = np.array([0.25 + 0.001 * (v // 2) + 0.01 * k + (1e-10 if v % 2 else 0.0) for k in range(n)])
         base = self.Time(jd1[0], val2=jd2[0], fmt="jd", scale="utc") if shape == () else self.Time(jd1, val2=jd2, fmt="jd", scale="utc")
         fmt = self.FMTS[tag]
         if fmt == "jd":
